@@ -237,7 +237,7 @@ Stream == /\ pc = "stream"
                          files, ingested, tid>>
 
 \* the process ends: after the stream, after an error, or right after the ingestion context (ingestion-only use)
-EndRun == /\ pc \in {"done", "raised", "crashed", "closed"}
+EndRun == /\ (pc \in {"done", "raised", "crashed"} \/ (pc = "closed" /\ TraceMode))
           /\ pc' = "off"
           /\ UNCHANGED <<nodes, assoc, hashes, pendN, pendR, minTs, maxTs, B, buf, run, flags, fed, first, pre, todo, sel,
                          out, ans, files, ingested, tid>>
@@ -265,8 +265,8 @@ HashAgrees(H) == /\ {<<x.job, x.name>> : x \in hashes} = {<<y.job, y.name>> : y 
                        (y1.job = x1.job /\ y2.job = x2.job) => ((x1.h = x2.h) <=> (y1.h = y2.h))
 Agrees(i) == /\ nodes = Post(i).nodes /\ assoc = Post(i).assoc /\ HashAgrees(Post(i).hashes)
              /\ Len(pendN) = Post(i).npend
-             /\ (pc = "crashed") = (Post(i).status = "crashed")
-             /\ (pc = "raised") = (Post(i).status = "raised")
+             /\ (Tr[i].op # "end") => /\ (pc = "crashed") = (Post(i).status = "crashed")
+                                      /\ (pc = "raised") = (Post(i).status = "raised")
 CanConsume == Settled /\ l <= Len(Tr) /\ (l > 1 => Agrees(l - 1))
 Consume == l' = l + 1
 TraceStep ==
